@@ -102,6 +102,23 @@ func (o *Oblig) Fail(why string, args ...any) *Oblig {
 // Table tries the named exception table (tables/<name>.json: key -> reason).
 // A table line discharges exactly the obligation with that full key.
 func (r *Run) Table(name string, o *Oblig) bool {
+	t := r.loadTable(name)
+	if reason, ok := t[o.Key]; ok {
+		o.Status = "table:" + reason
+		r.tableUsed(name, o.Key)
+		return true
+	}
+	return false
+}
+
+// InTable reports whether the table has a line for the full key, without
+// discharging anything (used where a listed site changes what else is owed).
+func (r *Run) InTable(name, fullKey string) bool {
+	_, ok := r.loadTable(name)[fullKey]
+	return ok
+}
+
+func (r *Run) loadTable(name string) map[string]string {
 	t, ok := r.tables[name]
 	if !ok {
 		t = map[string]string{}
@@ -121,12 +138,7 @@ func (r *Run) Table(name string, o *Oblig) bool {
 		r.tables[name] = t
 		r.tableUsed(name, "")
 	}
-	if reason, ok := t[o.Key]; ok {
-		o.Status = "table:" + reason
-		r.tableUsed(name, o.Key)
-		return true
-	}
-	return false
+	return t
 }
 
 var usedTableKeys = map[string]map[string]bool{}
@@ -225,6 +237,11 @@ func (r *Run) Finish(out string) int {
 	for _, o := range r.Obligs {
 		if strings.HasPrefix(o.Status, "known:") {
 			fmt.Printf("KNOWN-FINDING: property=%s %s — %s (%s)\n", r.Prop, o.Key, strings.TrimPrefix(o.Status, "known:"), o.Pos)
+		}
+	}
+	if os.Getenv("J5CHECK_DUMP") != "" { // debugging aid: every obligation with its discharge
+		for _, o := range r.Obligs {
+			fmt.Fprintf(os.Stderr, "DUMP %s @ %s => %s %s\n", o.Key, o.Pos, o.Status, o.Why)
 		}
 	}
 	n := 0
